@@ -2,10 +2,12 @@
 use crate::rt::{Args, Report};
 
 pub mod c03;
+pub mod c05;
 
 pub fn dispatch(a: &Args) -> Option<Report> {
     match a.prop.as_str() {
         "C03" => c03::run(a),
+        "C05" => c05::run(a),
         _ => None,
     }
 }
